@@ -85,6 +85,10 @@ AtomsT == AtomsQ \cup {Bare("N", "N", FALSE), Bare("O", "O", FALSE), Bare("n", "
            Brk("[NH3+]", "N", 1, 3, <<>>), Brk("[CH]", "C", 0, 1, <<FKW("x", "R"), FKW("foo", "bar")>>)}
 AtomsCG == {Brk("[#A]", "A", 0, 0, <<>>), Brk("[#B]", "B", 0, 0, <<FKW("w", "0.5")>>),
             Brk("[#A]", "A", 0, 0, <<FKW("foo", "bar")>>)}
+AtomsW == {Bare("C", "C", FALSE), Bare("N", "N", FALSE), Bare("c", "C", TRUE), Bare("Cl", "Cl", FALSE),
+           Brk("[O-]", "O", -1, 0, <<>>)}
+AtomsCGW == {Brk("[#A]", "A", 0, 0, <<>>), Brk("[#B]", "B", 0, 0, <<>>)}
+SymsW  == {".", "=", "#"}
 DescQ  == {Dsc("$", ""), Dsc(">", "A"), Dsc("!", "")}
 DescT  == {Dsc("$", ""), Dsc("$", "A"), Dsc(">", ""), Dsc("<", "1A"), Dsc("!", "")}
 SymsQ  == {"="}
